@@ -132,6 +132,18 @@ def oracle(ctx, obs, max_py_cells):
                         ctx.violation("S5", f"visibility {k} = {vis[k][1]!r} differs from (0.5 - rate(0))/0.5 = {want!r} ({o['setup']}, n={n})",
                                       {"kind": "visibility_vs_series", "channel": k, "setup": o["setup"]}, dict(rep, channel=k, visibility=vis[k][1], expected=want),
                                       found_input=False)
+            # the exchanged twin on the exchanged ranges: V_ss(setup) = V_ii(twin), V_ii(setup) = V_ss(twin)  (C10_purity_exchange)
+            vt = o.get("vis_twin")
+            if vt is not None:
+                if "panic" in vt:
+                    ctx.violation("S5", f"hom_two_source_visibilities panicked on the exchanged twin ({o['setup']})", {"kind": "panic", "variant": "twin"}, dict(rep, outcome=vt))
+                else:
+                    for k, kt in (("ss", "ii"), ("ii", "ss")):
+                        x, y = vis[k][1], fl(vt[kt][1])
+                        if not (fin(x) and fin(y) and abs(x - y) <= SLACK):
+                            ctx.violation("S5", f"V_{k} of the setup = {x!r} differs from V_{kt} = {y!r} of spdc.with_swapped_signal_idler() on the exchanged ranges ({o['setup']}, n={n})",
+                                          {"kind": "purity_exchange", "channel": k}, dict(rep, channel=k, setup_value=x, twin_value=y,
+                                                                                          call_twin="spdc.clone().with_swapped_signal_idler().hom_two_source_visibilities(FrequencySpace::new(idler_axis, signal_axis), integrator)"))
             # the free functions with a separate equal object / a source differing only in brightness as second source
             fr = o.get("free")
             if fr and o.get("sv2") is not None:
@@ -318,7 +330,7 @@ def correspondence(ctx, obs, max_n_q, max_goals):
 
 def run(ctx):
     binp = build_harness(ctx)
-    msgs, spans = regen(ctx, ["hom"])
+    msgs, spans = regen(ctx, ["hom", "pm_integrand"])
     ctx.cov["translated_spans"] = {k: v for k, v in spans.items() if "hom" in v["file"]}
     for m in msgs:
         ctx.proof_failures.append(("Gen/HomSrc.v", "translator", m))
@@ -357,6 +369,8 @@ def run(ctx):
         "both = sum s^4/(sum s^2)^2 over singular values of the sampled JSA matrix": "proved for any unitary factorisation (C10_singular_values, "
             "C10_setup_visibilities); nalgebra's complex SVD accuracy validated per input (1e-9)",
         "rates ss, ii in [0,1] at every delay": "proved (C10_range_partial, C10_range_general)",
+        "visibilities swap under signal<->idler relabelling (composition with C06)": "proved (C10_purity_exchange, every quadrature); measured Rust-vs-Rust on the "
+            "with_swapped_signal_idler twin of every setup-level case",
         "rate si in [0,1] at every delay": "REFUTED on unequal signal/idler axes (Findings/C10_si_range.v, replayed on the Rust code by the corpus case); proved_partial: proved on identical signal/idler axes (C10_range_same_axes) and under a norm condition on the two "
             "auxiliary grids; validated_only on unequal axes",
         "implementation = model (eight grids, index permutations, phases, normalisation)": "validated: exact Q twin at zero delay and, with Pythagorean phases (3+4i)/5^m on arithmetic axes, at non-zero delays "
